@@ -24,7 +24,7 @@ func init() {
 				Flavours: []string{"plain", "cover"},
 				Blocks:   16,
 				Procs:    16,
-				Rule: "exhaustive enumeration: Partition: every keep/drop mask for n <= 16 (20 thorough), on exact-size slices and on windows of a larger guard-filled buffer; Rotate: every n <= 400 (1300) and every k in [-n-2, n+2] plus far out-of-range k; every function with counts/offsets near the ends of the int range (MaxInt, MaxInt-1, 2^62, 2^31, MinInt); Chunks/Batches: every len <= 40 (96) x every n in [-1, len+3], on windows with spare capacity; Head/Tail: every len <= 12 x n in [0, len+3]; Stripe: row-length vectors over {0..3}^<=4 x i in [0,4]; At/PtrAt: every len <= 12 x i in [-len-3, len+3]; Rotate/Partition/Chunks/Batches instantiated with 15 ordinary element types of every width (byte, named byte slice, int8, bool, uint16, rune, uint32, int, uint64, float32, float64, string, small arrays, interface) on slices of 0..9000 elements around 256, 512, 1024 and 4096 with shifts around 0, n/2, 256, 512 and n. " +
+				Rule: "exhaustive enumeration: Partition: every keep/drop mask for n <= 16 (20 thorough), on exact-size slices and on windows of a larger guard-filled buffer; Rotate: every n <= 400 (1300) and every k in [-n-2, n+2] plus far out-of-range k; every function with counts/offsets near the ends of the int range (MaxInt, MaxInt-1, 2^62, 2^31, MinInt) and far out of range with low 8..62 bits that look like a valid value (m*2^w + d); Chunks/Batches: every len <= 40 (96) x every n in [-1, len+3], on windows with spare capacity; Head/Tail: every len <= 12 x n in [0, len+3]; Stripe: row-length vectors over {0..3}^<=4 x i in [0,4]; At/PtrAt: every len <= 12 x i in [-len-3, len+3]; (thorough only) Rotate of a []byte of 2^31+17 elements by -1 and by 2^31-3; Rotate/Partition/Chunks/Batches instantiated with 15 ordinary element types of every width (byte, named byte slice, int8, bool, uint16, rune, uint32, int, uint64, float32, float64, string, small arrays, interface) on slices of 0..9000 elements around 256, 512, 1024 and 4096 with shifts around 0, n/2, 256, 512 and n. " +
 					"Oracles: stable filter + permutation + append-does-not-clobber for Partition; element i moves to (i+k) mod n and out-of-range k panics for Rotate; concatenation by address, documented lengths/counts, append-does-not-clobber-a-later-subslice, no panic for allowed arguments (incl. empty slice) for Chunks/Batches; direct indexing for the rest. " +
 					"distinct = enumerated argument tuples; non-trivial = the call had a non-empty slice argument",
 				Required:     []string{"partition_masks", "rotate_cases", "chunks_cases", "batches_cases", "batches_of_empty", "head_tail_cases", "stripe_cases", "at_ptrat_cases", "expected_panics_seen", "extreme_argument_cases", "element_type_checks", "typed_rotate_cases", "typed_partition_cases", "typed_element_sweeps"},
@@ -419,6 +419,20 @@ func runC17(c *fw.Ctx) {
 				cnt += 8
 			}
 		}
+		// arguments far out of range whose low 8..62 bits look like a valid count/offset
+		for ln := c.Block % 4; ln <= 300; ln = ln*3 + 4 {
+			for _, n := range truncInts(ln) {
+				if n > 0 {
+					c17chunksBatches(c, ln, n, false)
+					c17chunksBatches(c, ln, n, true)
+					c17headTail(c, ln, n)
+					cnt += 3
+				}
+				c17at(c, ln, n)
+				c17rotate(c, ln, n)
+				cnt += 2
+			}
+		}
 		c.Evals(cnt)
 		c.Add("extreme_argument_cases", cnt)
 		c.SeenEnum(cnt)
@@ -544,6 +558,40 @@ func runC17(c *fw.Ctx) {
 			return fmt.Sprint(i)
 		})
 		c.Add("typed_element_sweeps", 15)
+	}
+	if c.Thorough() && c.Block < 2 && c.Begin(idx+90+c.Block) {
+		// a slice of more than 2^31 elements (2 GiB of bytes): index arithmetic
+		// narrower than 64 bits wraps here; thorough tier only (about 30 s)
+		n := 1<<31 + 17
+		k := []int{-1, 1<<31 - 3}[c.Block]
+		mk := func(i int) byte { return byte(i*131 + i>>8 + i>>17 + i>>26) }
+		ok, pv, stack := fw.Try(func() {
+			bs := make([]byte, n)
+			for i := range bs {
+				bs[i] = mk(i)
+			}
+			c.Step()
+			slice.Rotate(bs, k)
+			c.Step()
+			kk := ((k % n) + n) % n
+			for i := 0; i < n; i++ {
+				to := i + kk
+				if to >= n {
+					to -= n
+				}
+				if bs[to] != mk(i) {
+					c.Fail(map[string]any{"func": "Rotate", "element_type": "byte", "n": n, "k": k}, "Rotate of a slice of 2^31+17 elements: the element originally at index %d is not at index %d", i, to)
+					return
+				}
+				if i&(1<<26-1) == 0 {
+					c.Step()
+				}
+			}
+		})
+		if !ok {
+			c.FailKind("panic", map[string]any{"func": "Rotate", "n": n, "k": k}, "panic: %v\n%s", pv, stack)
+		}
+		c.Add("huge_slice_rotations", 1)
 	}
 	idx += 100
 	// Head/Tail, At/PtrAt
